@@ -415,3 +415,53 @@ Theorem C18_is_pipeline_generator :
     end.
 Proof. exact Gengo.Proofs.GeneratorsPipe.partialstruct_gen_run. Qed.
 Print Assumptions C18_is_pipeline_generator.
+
+(* ================================================================================================================
+   C18_types / C18_type_imports read types back through THIS file's own reading of Dumper.TypeLit ([type_lit]: a fixed
+   tracker function L, the expression as a tree).  It coincides with C11's model of the dumper (Model/TypeLit.v: the
+   tracker state threaded through the rendering, snippet.ID -> rawNamer.Name -> processName) on the common domain:
+   [view18] = what the dumper sees of a type of C18's grammar, [ast18] = C18's tree as C11's syntax tree, [wf18] =
+   type and basic names are identifiers, packages non-empty.  From any tracker state with non-empty names C11's model
+   returns, for EVERY L that names the mentioned foreign packages as the resulting state does, exactly C18's tree; the
+   state is extended (never rewritten) and the paths registered are the old ones plus the foreign packages mentioned.
+   Stated with C11's hypotheses on tracker and parser, and with both discharged (C03's tracker, C15's parser).
+   ================================================================================================================ *)
+Require Gengo.Model.GeneratorsTypes Gengo.Proofs.GeneratorsTypes Gengo.Proofs.TypeLit Gengo.Model.RenderStack.
+Module GT := Gengo.Model.GeneratorsTypes.
+
+Theorem C18_type_lit_is_c11 : forall pick parse_tref target can_backquote fx_tag c,
+  Gengo.Proofs.TypeLit.tracker_hyps pick -> Gengo.Proofs.TypeLit.parse_hyp parse_tref ->
+  forall t, GT.wf18 t = true -> forall e, GT.env_ok e ->
+    exists a e' suf,
+      Gengo.Model.TypeLit.type_lit pick parse_tref target can_backquote (fx_errlit c) fx_tag (GT.view18 t) e = Ok (a, e') /\
+      e' = e ++ suf /\ GT.env_ok e' /\
+      (forall p, In p (GT.foreign18 target t) -> Gengo.Model.TypeLit.alookup p e' <> None) /\
+      (forall p, Gengo.Model.TypeLit.alookup p e' <> None ->
+                 Gengo.Model.TypeLit.alookup p e <> None \/ In p (GT.foreign18 target t)) /\
+      (forall L, (forall p, In p (GT.foreign18 target t) -> L p = Gengo.Model.TypeLit.local_name_of p e') ->
+                 a = GT.ast18 (fst (type_lit L target c t))).
+Proof. exact Gengo.Proofs.GeneratorsTypes.type_lit_agree_c11. Qed.
+Print Assumptions C18_type_lit_is_c11.
+
+Theorem C18_type_lit_is_c11_concrete : forall pre std target can_backquote fx_tag c,
+  forall t, GT.wf18 t = true -> forall e, GT.env_ok e ->
+    exists a e' suf,
+      Gengo.Model.TypeLit.type_lit (Gengo.Model.RenderStack.pick_c03 pre std) Gengo.Model.RenderStack.parse_c15
+        target can_backquote (fx_errlit c) fx_tag (GT.view18 t) e = Ok (a, e') /\
+      e' = e ++ suf /\ GT.env_ok e' /\
+      (forall p, In p (GT.foreign18 target t) -> Gengo.Model.TypeLit.alookup p e' <> None) /\
+      (forall p, Gengo.Model.TypeLit.alookup p e' <> None ->
+                 Gengo.Model.TypeLit.alookup p e <> None \/ In p (GT.foreign18 target t)) /\
+      (forall L, (forall p, In p (GT.foreign18 target t) -> L p = Gengo.Model.TypeLit.local_name_of p e') ->
+                 a = GT.ast18 (fst (type_lit L target c t))).
+Proof. exact Gengo.Proofs.GeneratorsTypes.type_lit_agree_concrete. Qed.
+Print Assumptions C18_type_lit_is_c11_concrete.
+
+Example C18_example_type_lit_is_c11 :
+  let t := TMap (TBasic (bs "string")) (TNamed (bs "example.com/m/origin") (bs "Inner") UStruct []) in
+  GT.wf18 t = true /\ GT.env_ok [] /\
+  exists e', Gengo.Model.TypeLit.type_lit Gengo.Model.RenderStack.the_pick Gengo.Model.RenderStack.parse_c15
+               (bs "example.com/m/target") (fun _ => true) true true (GT.view18 t) []
+             = Ok (GT.ast18 (OMap (OIdent (bs "string")) (OSel (bs "origin") (bs "Inner"))), e')
+             /\ Gengo.Model.TypeLit.local_name_of (bs "example.com/m/origin") e' = bs "origin".
+Proof. exact Gengo.Proofs.GeneratorsTypes.type_lit_agree_example. Qed.
